@@ -3,6 +3,7 @@ from fractions import Fraction
 from checks import symgen, refqr
 
 ID = 'C12'
+PROP_MODULES = ['QRV.Props.C12', 'QRV.Props.C08Entry']
 RULE = ('payloads of every mode mix x levels x quiet zone 0..8 x module size in [1, 8] (integers, k/64 fractions exact in float64, decimals for which float64 and exact arithmetic '
         'agree on the ceiling; the others are dropped and counted) x width in {0} u [1, 1000], three packages. Oracle (exact rational arithmetic in python): image width = '
         'max(ceil((n+2q)s), width), square for QR / Micro QR, height ceil(h W / w) for rMQR; every destination pixel whose source interval lies inside one module on both axes is '
